@@ -11,7 +11,7 @@ KF_ESCAPE = "C08:sqlalchemy/common.py:_substr_function:autoescape-clause"
 
 # literal assignments: (kind, value A, value B) — both valid for the kind, both distinctive enough to be searched for in SQL text
 VALUES = {
-    "String": [("alpha_sentinel", "b'; DROP TABLE t; --"), ("O'B", "x\"y"), ("zzq", "qzz zzq")],
+    "String": [("alpha_sentinel", "b'; DROP TABLE t; --"), ("O'B", "x\"y"), ("zzq", "qzz zzq"), ("50%-50", "50%/50"), ("a_b", "a/_b!#"), ("%", "/!#~^|%")],
     "Integer": [("424242", "737373"), ("-424242", "5"), ("9223372036854775808", "6"), ("-9223372036854775809", "9223372036854775807"), ("99999999999999999999999", "0")],
     "Float": [("4242.5", "7373.25"), ("1.5e10", "2E-3")],
     "Date": [("2020-01-01", "1999-12-31"), ("0001-01-01", "9999-12-31")],
